@@ -25,10 +25,10 @@ func TestMain(m *testing.M) {
 		os.Exit(childMain(p))
 	}
 	if kit.RaceMode() {
-		kit.TestMain(m, 100, 1200)
+		kit.TestMain(m, 110, 1200)
 		return
 	}
-	kit.TestMain(m, 320, 5000)
+	kit.TestMain(m, 380, 5000)
 }
 
 // Case is a set of histories on distinct documents plus the two schedules they are executed under.
@@ -50,7 +50,7 @@ var families = map[string][]string{
 	"props": {"props", "title", "author", "stats"},
 	"page":  {"pagesize", "custompage", "orient", "margins", "hfdist", "gutter", "docgrid", "cleargrid"},
 	"table": {"table", "celltext", "cellpara", "insrow", "appcol", "mergeh", "nested"},
-	"tpl":   {"tplstr", "tpldoc"},
+	"tpl":   {"tplstr", "tpldoc", "tpldoc2"},
 	"md":    {"md"},
 	"toc":   {"toc", "autotoc", "updatetoc"},
 }
@@ -121,6 +121,10 @@ func weights(registry bool, focus []string) map[string]int {
 		w[k] = v
 	}
 	delete(w, "reopen")
+	for _, k := range []string{"tplstr", "tpldoc", "tpldoc2", "md"} { // rendering and conversion create documents too
+		w[k] *= 3
+	}
+	w["md"] *= 2
 	for _, f := range focus {
 		for _, k := range families[f] {
 			w[k] *= 8
@@ -204,16 +208,18 @@ func sanitiseTemplateData(h []ops.Op) {
 		return s
 	}
 	for _, o := range h {
-		if o.Data == nil {
-			continue
-		}
-		for k, v := range o.Data.Vars {
-			o.Data.Vars[k] = strip(v)
-		}
-		for _, items := range o.Data.Lists {
-			for _, it := range items {
-				for k, v := range it {
-					it[k] = strip(v)
+		for _, data := range []*ops.Data{o.Data, o.Data2} {
+			if data == nil {
+				continue
+			}
+			for k, v := range data.Vars {
+				data.Vars[k] = strip(v)
+			}
+			for _, items := range data.Lists {
+				for _, it := range items {
+					for k, v := range it {
+						it[k] = strip(v)
+					}
 				}
 			}
 		}
@@ -268,6 +274,10 @@ func (r *docRun) snap(withCounts bool) *Snap {
 		// the bytes are judged by the normal binary
 		s := &Snap{}
 		kit.Try(func() { r.x.Doc.ToBytes() })
+		for _, sd := range r.x.Side {
+			sd := sd
+			kit.Try(func() { sd.ToBytes() })
+		}
 		s.addAccessors(r.x.Doc)
 		if withCounts {
 			s.addCounts(r.x.Doc)
